@@ -63,9 +63,10 @@ def reqIdle (c : Conn) : R :=
   match u with
   | none => ({ c with inn := { c.inn with tx := none } }, .error)    -- connp->in_tx = NULL
   | some uid =>
-    -- htp_tx_state_request_start: return value ignored
-    let (c, _) := txStateRequestStart uid c
-    (c, .ok)
+    -- htp_tx_state_request_start; its answer is REQ_IDLE's answer (S45, repaired: the return value used to be ignored, so a REQUEST_START
+    -- callback answering STOP or ERROR left the parser in REQ_IDLE and the loop created one transaction after the other)
+    let (c, rc) := txStateRequestStart uid c
+    (c, rc)
 
 /-- htp_connp_REQ_LINE_complete -/
 def reqLineComplete (c : Conn) : R :=
